@@ -91,13 +91,39 @@ type c15Set interface {
 	dynamic() bool
 	contains(q uint32) bool
 	roundTrips() bool
+	argsIntact() bool
 }
 
-type c15Raw struct{ s imapnum.Set }
+// c15Arg remembers a set that was passed to AddSet: it must not change afterwards (the receiver
+// must not share storage with its argument).
+type c15Arg struct {
+	want string
+	cur  func() string
+}
+
+type c15Args struct{ args []c15Arg }
+
+func (a *c15Args) argsIntact() bool {
+	for _, x := range a.args {
+		if x.cur() != x.want {
+			return false
+		}
+	}
+	return true
+}
+
+type c15Raw struct {
+	s imapnum.Set
+	c15Args
+}
 
 func (x *c15Raw) addNum(q uint32)         { x.s.AddNum(q) }
 func (x *c15Raw) addRange(a, b uint32)    { x.s.AddRange(a, b) }
-func (x *c15Raw) addSet(t imapnum.Set)    { x.s.AddSet(t) }
+func (x *c15Raw) addSet(t imapnum.Set) {
+	o := append(imapnum.Set(nil), t...)
+	x.s.AddSet(o)
+	x.args = append(x.args, c15Arg{want: c15Ranges(t), cur: func() string { return c15Ranges(o) }})
+}
 func (x *c15Raw) ranges() []imapnum.Range { return x.s }
 func (x *c15Raw) str() string             { return x.s.String() }
 func (x *c15Raw) dynamic() bool           { return x.s.Dynamic() }
@@ -110,7 +136,10 @@ func (x *c15Raw) roundTrips() bool {
 	return err == nil && c15Ranges(p) == c15Ranges(x.s)
 }
 
-type c15Seq struct{ s imap.SeqSet }
+type c15Seq struct {
+	s imap.SeqSet
+	c15Args
+}
 
 func (x *c15Seq) addNum(q uint32)      { x.s.AddNum(q) }
 func (x *c15Seq) addRange(a, b uint32) { x.s.AddRange(a, b) }
@@ -120,6 +149,7 @@ func (x *c15Seq) addSet(t imapnum.Set) {
 		o = append(o, imap.SeqRange{Start: r.Start, Stop: r.Stop})
 	}
 	x.s.AddSet(o)
+	x.args = append(x.args, c15Arg{want: c15Ranges(t), cur: func() string { return fmtRangesOf(o.String()) }})
 }
 func (x *c15Seq) ranges() []imapnum.Range {
 	out := make([]imapnum.Range, len(x.s))
@@ -139,7 +169,10 @@ func (x *c15Seq) roundTrips() bool {
 	return err == nil && c15Ranges(p) == c15Ranges(x.ranges())
 }
 
-type c15UID struct{ s imap.UIDSet }
+type c15UID struct {
+	s imap.UIDSet
+	c15Args
+}
 
 func (x *c15UID) addNum(q uint32)      { x.s.AddNum(imap.UID(q)) }
 func (x *c15UID) addRange(a, b uint32) { x.s.AddRange(imap.UID(a), imap.UID(b)) }
@@ -149,6 +182,7 @@ func (x *c15UID) addSet(t imapnum.Set) {
 		o = append(o, imap.UIDRange{Start: imap.UID(r.Start), Stop: imap.UID(r.Stop)})
 	}
 	x.s.AddSet(o)
+	x.args = append(x.args, c15Arg{want: c15Ranges(t), cur: func() string { return fmtRangesOf(o.String()) }})
 }
 func (x *c15UID) ranges() []imapnum.Range {
 	out := make([]imapnum.Range, len(x.s))
@@ -229,7 +263,7 @@ func c15RunOps(e *emitter, flavour string, ops []c15Op) (final []imapnum.Range) 
 		for _, p := range probes {
 			bits.WriteString(b01(s.contains(p)))
 		}
-		obs = append(obs, fmt.Sprintf("%s|%s|%s|%s|%s", c15Ranges(s.ranges()), s.str(), b01(s.dynamic()), bits.String(), b01(s.roundTrips())))
+		obs = append(obs, fmt.Sprintf("%s|%s|%s|%s|%s|%s", c15Ranges(s.ranges()), s.str(), b01(s.dynamic()), bits.String(), b01(s.roundTrips()), b01(s.argsIntact())))
 		opStrs = append(opStrs, o.String())
 	}
 	e.emit("ops", flavour, strings.Join(pStrs, ","), strings.Join(opStrs, ";"), strings.Join(obs, ";"))
